@@ -384,6 +384,7 @@ def run_check(cid, tier, seed):
     if tier == 'thorough':
         ev['coverage']['cross_checked'] = sum(1 for o in obs if getattr(o, 'cross', None))
     ev['coverage']['dependencies'] = {k: v for k, v in deps.items()}
+    ev['coverage']['exit_spec_evaluation_stopped'] = sorted({x for r in reports for x in getattr(r, 'exit_pathends', [])})
     xc = os.path.join(ROOT, 'out', 'xcheck.json')
     if os.path.exists(xc):
         try:
